@@ -8,45 +8,40 @@ package yubiattest
 //@ # ---------------------------------------------------------------- C06
 //@ # digest sizes and DigestInfo prefixes pinned from RFC 8017 (9.2, note 1), with and without the NULL parameter;
 //@ # crypto.Hash numbering: SHA1=3 SHA256=5 SHA384=6 SHA512=7
-//@ ghost func hsize(h int) int = h == 3 ? 20 : h == 5 ? 32 : h == 6 ? 48 : h == 7 ? 64 : 0
-//@ ghost func supported(h int) bool = h == 3 || h == 5 || h == 6 || h == 7
-//@ ghost func p1len(h int) int = h == 3 ? 15 : h == 5 ? 19 : h == 6 ? 19 : h == 7 ? 19 : 0
-//@ ghost func p1at(h int, j int) int =
+//@ ghost pure func hsize(h int) int = h == 3 ? 20 : h == 5 ? 32 : h == 6 ? 48 : h == 7 ? 64 : 0
+//@ ghost pure func supported(h int) bool = h == 3 || h == 5 || h == 6 || h == 7
+//@ ghost pure func p1len(h int) int = h == 3 ? 15 : h == 5 ? 19 : h == 6 ? 19 : h == 7 ? 19 : 0
+//@ ghost pure func p1at(h int, j int) int =
 //@   h == 3 ? (j == 0 ? 48 : j == 1 ? 33 : j == 2 ? 48 : j == 3 ? 9 : j == 4 ? 6 : j == 5 ? 5 : j == 6 ? 43 : j == 7 ? 14 : j == 8 ? 3 : j == 9 ? 2 : j == 10 ? 26 : j == 11 ? 5 : j == 12 ? 0 : j == 13 ? 4 : j == 14 ? 20 : 0) :
 //@   h == 5 ? (j == 0 ? 48 : j == 1 ? 49 : j == 2 ? 48 : j == 3 ? 13 : j == 4 ? 6 : j == 5 ? 9 : j == 6 ? 96 : j == 7 ? 134 : j == 8 ? 72 : j == 9 ? 1 : j == 10 ? 101 : j == 11 ? 3 : j == 12 ? 4 : j == 13 ? 2 : j == 14 ? 1 : j == 15 ? 5 : j == 16 ? 0 : j == 17 ? 4 : j == 18 ? 32 : 0) :
 //@   h == 6 ? (j == 0 ? 48 : j == 1 ? 65 : j == 2 ? 48 : j == 3 ? 13 : j == 4 ? 6 : j == 5 ? 9 : j == 6 ? 96 : j == 7 ? 134 : j == 8 ? 72 : j == 9 ? 1 : j == 10 ? 101 : j == 11 ? 3 : j == 12 ? 4 : j == 13 ? 2 : j == 14 ? 2 : j == 15 ? 5 : j == 16 ? 0 : j == 17 ? 4 : j == 18 ? 48 : 0) :
 //@   h == 7 ? (j == 0 ? 48 : j == 1 ? 81 : j == 2 ? 48 : j == 3 ? 13 : j == 4 ? 6 : j == 5 ? 9 : j == 6 ? 96 : j == 7 ? 134 : j == 8 ? 72 : j == 9 ? 1 : j == 10 ? 101 : j == 11 ? 3 : j == 12 ? 4 : j == 13 ? 2 : j == 14 ? 3 : j == 15 ? 5 : j == 16 ? 0 : j == 17 ? 4 : j == 18 ? 64 : 0) :
 //@   0
-//@ ghost func p2len(h int) int = h == 3 ? 13 : h == 5 ? 17 : h == 6 ? 17 : h == 7 ? 17 : 0
-//@ ghost func p2at(h int, j int) int =
+//@ ghost pure func p2len(h int) int = h == 3 ? 13 : h == 5 ? 17 : h == 6 ? 17 : h == 7 ? 17 : 0
+//@ ghost pure func p2at(h int, j int) int =
 //@   h == 3 ? (j == 0 ? 48 : j == 1 ? 31 : j == 2 ? 48 : j == 3 ? 7 : j == 4 ? 6 : j == 5 ? 5 : j == 6 ? 43 : j == 7 ? 14 : j == 8 ? 3 : j == 9 ? 2 : j == 10 ? 26 : j == 11 ? 4 : j == 12 ? 20 : 0) :
 //@   h == 5 ? (j == 0 ? 48 : j == 1 ? 47 : j == 2 ? 48 : j == 3 ? 11 : j == 4 ? 6 : j == 5 ? 9 : j == 6 ? 96 : j == 7 ? 134 : j == 8 ? 72 : j == 9 ? 1 : j == 10 ? 101 : j == 11 ? 3 : j == 12 ? 4 : j == 13 ? 2 : j == 14 ? 1 : j == 15 ? 4 : j == 16 ? 32 : 0) :
 //@   h == 6 ? (j == 0 ? 48 : j == 1 ? 63 : j == 2 ? 48 : j == 3 ? 11 : j == 4 ? 6 : j == 5 ? 9 : j == 6 ? 96 : j == 7 ? 134 : j == 8 ? 72 : j == 9 ? 1 : j == 10 ? 101 : j == 11 ? 3 : j == 12 ? 4 : j == 13 ? 2 : j == 14 ? 2 : j == 15 ? 4 : j == 16 ? 48 : 0) :
 //@   h == 7 ? (j == 0 ? 48 : j == 1 ? 79 : j == 2 ? 48 : j == 3 ? 11 : j == 4 ? 6 : j == 5 ? 9 : j == 6 ? 96 : j == 7 ? 134 : j == 8 ? 72 : j == 9 ? 1 : j == 10 ? 101 : j == 11 ? 3 : j == 12 ? 4 : j == 13 ? 2 : j == 14 ? 3 : j == 15 ? 4 : j == 16 ? 64 : 0) :
 //@   0
 
-//@ # the k-byte encoded message: leftpad(bytes(sig^E mod N), k)
+//@ # the k-byte encoded message EM = leftpad(bytes(sig^E mod N), k) as a function of k and m = sig^E mod N
 //@ ghost func kOf(pub *rsa.PublicKey) int = (bitlen(bigv(pub.N)) + 7) / 8
 //@ ghost func mOf(pub *rsa.PublicKey, sig []byte) int = modexp(b2i(elems(sig), off(sig), len(sig)), pub.E, bigv(pub.N))
-//@ ghost func emAt(pub *rsa.PublicKey, sig []byte, j int) int =
-//@   j < kOf(pub) - min(bytelen(mOf(pub, sig)), kOf(pub)) ? 0 :
-//@     i2b(mOf(pub, sig))[j - (kOf(pub) - min(bytelen(mOf(pub, sig)), kOf(pub)))]
-//@ # EM = 00 01 FF..FF 00 prefix digest with the given prefix variant (plen bytes, pat(j))
-//@ ghost func wf1(pub *rsa.PublicKey, hash int, hashed []byte, sig []byte) bool =
-//@   emAt(pub, sig, 0) == 0 && emAt(pub, sig, 1) == 1 &&
-//@   emAt(pub, sig, kOf(pub) - p1len(hash) - hsize(hash) - 1) == 0 &&
-//@   forall(j, 2 <= j && j < kOf(pub) - p1len(hash) - hsize(hash) - 1, emAt(pub, sig, j) == 255) &&
-//@   forall(j, 0 <= j && j < p1len(hash), emAt(pub, sig, kOf(pub) - p1len(hash) - hsize(hash) + j) == p1at(hash, j)) &&
-//@   forall(j, 0 <= j && j < hsize(hash), emAt(pub, sig, kOf(pub) - hsize(hash) + j) == hashed[j])
-//@ ghost func wf2(pub *rsa.PublicKey, hash int, hashed []byte, sig []byte) bool =
-//@   emAt(pub, sig, 0) == 0 && emAt(pub, sig, 1) == 1 &&
-//@   emAt(pub, sig, kOf(pub) - p2len(hash) - hsize(hash) - 1) == 0 &&
-//@   forall(j, 2 <= j && j < kOf(pub) - p2len(hash) - hsize(hash) - 1, emAt(pub, sig, j) == 255) &&
-//@   forall(j, 0 <= j && j < p2len(hash), emAt(pub, sig, kOf(pub) - p2len(hash) - hsize(hash) + j) == p2at(hash, j)) &&
-//@   forall(j, 0 <= j && j < hsize(hash), emAt(pub, sig, kOf(pub) - hsize(hash) + j) == hashed[j])
+//@ ghost pure func emAt(k int, m int, j int) int =
+//@   j < k - min(bytelen(m), k) ? 0 : i2b(m)[j - (k - min(bytelen(m), k))]
+//@ ghost pure func plen(v int, h int) int = v == 1 ? p1len(h) : p2len(h)
+//@ ghost pure func pat(v int, h int, j int) int = v == 1 ? p1at(h, j) : p2at(h, j)
+//@ # EM = 00 01 FF..FF 00 prefix(v) digest, full length k; d/doff: the digest bytes
+//@ ghost pure func wf(k int, m int, v int, h int, d bytes, doff int) bool =
+//@   emAt(k, m, 0) == 0 && emAt(k, m, 1) == 1 &&
+//@   emAt(k, m, k - plen(v, h) - hsize(h) - 1) == 0 &&
+//@   forall(j, 2 <= j && j < k - plen(v, h) - hsize(h) - 1, emAt(k, m, j) == 255) &&
+//@   forall(j, 0 <= j && j < plen(v, h), emAt(k, m, k - plen(v, h) - hsize(h) + j) == pat(v, h, j)) &&
+//@   forall(j, 0 <= j && j < hsize(h), emAt(k, m, k - hsize(h) + j) == d[doff + j])
 //@ ghost func pkcsOK(pub *rsa.PublicKey, hash int, hashed []byte, sig []byte) bool =
 //@   len(hashed) == hsize(hash) && kOf(pub) >= p1len(hash) + hsize(hash) + 11 &&
-//@   (wf1(pub, hash, hashed, sig) || wf2(pub, hash, hashed, sig))
+//@   (wf(kOf(pub), mOf(pub, sig), 1, hash, elems(hashed), off(hashed)) || wf(kOf(pub), mOf(pub, sig), 2, hash, elems(hashed), off(hashed)))
 
 //@ func leftPad(input, size)
 //@   requires size >= 0
@@ -71,6 +66,6 @@ package yubiattest
 //@   modifies nothing
 //@   ensures result == nil <==> pkcsOK(pub, hash, hashed, sig)
 //@   loop 1:
-//@     invariant k == kOf(pub) && len(em) == k && forall(j, 0 <= j && j < k, em[j] == emAt(pub, sig, j))
+//@     invariant k == kOf(pub) && len(em) == k && forall(j, 0 <= j && j < k, em[j] == emAt(k, mOf(pub, sig), j))
 //@     invariant 2 <= i && (ok == 0 || ok == 1)
-//@     invariant ok == 1 <==> (entry(ok) == 1 && forall(j, 2 <= j && j < i, emAt(pub, sig, j) == 255))
+//@     invariant ok == 1 <==> (entry(ok) == 1 && forall(j, 2 <= j && j < i, emAt(k, mOf(pub, sig), j) == 255))
